@@ -244,6 +244,10 @@ def main(pid, tier):
         head = r.choice(['', 'junk before\n', '<XProtocol> ...\n'])
         text = head + '### ASCCONV BEGIN ###\n' + '\n'.join(lines) + '\n### ASCCONV END ###' + r.choice(['', '\ntrailer'])
         prots.append({'key': key, 'text': text, 'expect': expect})
+    # strings whose text begins or ends with white space, and one that is white space only (both dialects)
+    for key, dl in (('MrPhoenixProtocol', D2), ('MrProtocol', D1)):
+        prots.append({'key': key, 'text': '### ASCCONV BEGIN ###\nt1 = %s  lead%s\nt2\t=\t%strail  %s\nt3 = %s %s\nn = 3\n### ASCCONV END ###' % (dl, dl, dl, dl, dl, dl),
+                      'expect': {'t1': '  lead', 't2': 'trail  ', 't3': ' ', 'n': 3}})
     bad = gen_malformed(r, D2)
     prots.append({'key': 'MrPhoenixProtocol', 'text': '### ASCCONV BEGIN ###\na = 1\n%s\n### ASCCONV END ###' % bad['line'], 'expect': 'PARSE-ERROR'})
     prots.append({'key': 'SomethingElse', 'text': '### ASCCONV BEGIN ###\na = 1\n### ASCCONV END ###', 'expect': 'ValueError'})
@@ -325,6 +329,56 @@ def main(pid, tier):
                             % (other, h1 if isinstance(h1, str) else h1[:6], p['key'], h2 if isinstance(h2, str) else h2[:6]),
                             {'tag': 'phoenix:history', 'suite': 'phoenix', 'case': {'key': other, 'text': p['text'],
                              'history': 'parse(%s, text); parse(%s, text)' % (p['key'], other)}})
+    # ---- the protocol inside a CSA series header: `csa_series_trans_func` merges what `parse_phoenix_prot` returns into the
+    # header dictionary — same keys (prefixed), same values, same order, the protocol text itself removed
+    from .check_c15 import make_csa2
+    from nibabel.nicom import csareader
+
+    class _Elem(object):
+        def __init__(self, value):
+            self.value = value
+    for p in prots:
+        if p['key'] not in ('MrPhoenixProtocol', 'MrProtocol') or p.get('real'):
+            continue
+        try:
+            # NUL-terminated items, as scanners write them (csareader then hands the text over as str)
+            blob = make_csa2([('UsedPatientWeight', 'IS', ['70\x00']), (p['key'], 'UN', [p['text'] + '\x00']), ('ZzTail', 'LO', ['x y \x00'])])
+        except UnicodeEncodeError:
+            continue
+        try:
+            plain = extract.simplify_csa_dict(csareader.read(blob))
+            text = plain.get(p['key'])
+        except Exception:
+            continue
+        if not isinstance(text, str):
+            continue
+        try:
+            ref = list(extract.parse_phoenix_prot(p['key'], text).items())
+        except Exception as e:
+            ref = type(e).__name__
+        try:
+            merged = extract.csa_series_trans_func(_Elem(blob))
+            got_m = [(k[len('MrPhoenixProtocol.'):], v) for k, v in merged.items() if k.startswith('MrPhoenixProtocol.')]
+            rest_m = [(k, v) for k, v in merged.items() if not k.startswith('MrPhoenixProtocol.')]
+        except Exception as e:
+            merged, got_m, rest_m = None, type(e).__name__, None
+        rep.evaluations += 1
+        rep.count('prot/series_merge')
+        case = {'key': p['key'], 'text': p['text']}
+        if isinstance(ref, str) or isinstance(got_m, str):
+            if ref != got_m:
+                rep.failure('csa_series_trans_func: %r, parse_phoenix_prot on the same text: %r' % (got_m, ref),
+                            {'tag': 'phoenix:series_merge', 'suite': 'phoenix', 'case': case})
+            continue
+        if [(k, repr(v)) for k, v in got_m] != [(k, repr(v)) for k, v in ref]:
+            diff = [(a, b) for a, b in zip(got_m, ref) if (a[0], repr(a[1])) != (b[0], repr(b[1]))][:2]
+            rep.failure('csa_series_trans_func stores %r where parse_phoenix_prot gives %r' % (
+                [d_[0] for d_ in diff] or len(got_m), [d_[1] for d_ in diff] or len(ref)),
+                {'tag': 'phoenix:series_merge', 'suite': 'phoenix', 'case': case})
+        elif sorted(k for k, _ in rest_m) != sorted(k for k in plain if k != p['key']) or \
+                any(repr(merged[k]) != repr(plain[k]) for k, _ in rest_m):
+            rep.failure('csa_series_trans_func changed the other entries of the header: %r vs %r' % (rest_m, dict(plain)),
+                        {'tag': 'phoenix:series_merge', 'suite': 'phoenix', 'case': case})
     co = rep.corr.setdefault('phoenix_prot', {'cases': 0, 'agree': 0, 'disagree': 0, 'skipped': 0})
     for a, p in zip(drv.ask(reqs), prots):
         co['cases'] += 1
